@@ -163,7 +163,21 @@ class Run:
         self.parts.append({"part": label, "module": res.cmd.split()[-1], "distinct_states": res.distinct,
                            "states_generated": res.generated, "wall_s": round(res.wall, 2)})
         if res.error:
+            if getattr(self, "defer_errors", False):
+                # (a batch of chunks: violations found by the other chunks are reported first; see raise_deferred)
+                self.deferred.append("TLC failed (%s): %s\n%s" % (label, res.error, res.stdout[-3000:]))
+                return
             raise MachineryError("TLC failed (%s): %s\n%s" % (label, res.error, res.stdout[-3000:]))
+
+    def raise_deferred(self):
+        """A chunk that timed out or failed is a machinery failure -- unless another chunk of the same batch produced a genuine
+        violation: that is reported (exit 1); the unexplored chunk is mentioned in the notes."""
+        errs, self.deferred = list(getattr(self, "deferred", [])), []
+        self.defer_errors = False
+        if errs and not self.violations:
+            raise MachineryError(errs[0])
+        for e in errs:
+            self.notes.append("chunk not explored: " + e.splitlines()[0])
 
     def violation(self, rec):
         os.makedirs(os.path.join(ROOT, "replays"), exist_ok=True)
@@ -248,6 +262,7 @@ def validate_traces(run, module, traces, cfg=None, label="", props=None, extra_d
         return _tlc_on_chunk(module, cfg, data, w, cont, coverage, heap, consts)
     with ThreadPoolExecutor(parallel) as ex:
         results = list(ex.map(job, chunks))
+    run.defer_errors, run.deferred = True, []
     for ci, (ch, res) in enumerate(zip(chunks, results)):
         run.add_tlc(res, "%s#%d" % (label or module, ci))
         run.traces += len(ch)
@@ -303,6 +318,7 @@ def validate_insts(run, module, insts, cfg, label="", props=None, programs=None,
                            "instance": inst,
                            "summary": "%s false for instance %s: adversarial witness pub=%s priv=%s (honest priv=%s)" % (
                                res.violated, inst["id"] if inst else "?", res.state.get("apub"), res.state.get("apriv"), inst["priv"] if inst else "?")})
+    run.raise_deferred()
     return results
 
 
